@@ -50,7 +50,9 @@ def build(cases):
         spec.append(f"  character(len=40), parameter :: pd{k}(2) = [ {lit}, 'y' ]")
         spec.append(f"  character(len=*), parameter :: pe{k} = {lit} // 'z'")
         comps.append(f"    character(len=40) :: co{k} = {lit}")
+        # the same local declaration in every procedure, differing only in the literal of its kind selector
         procs.append(f"  subroutine bn{k}() bind(c, name={lit})\n  end subroutine bn{k}")
+        procs.append(f"  subroutine kq{k}()\n    character(kind=selected_char_kind({lit}), len=10) :: kc\n  end subroutine kq{k}")
         nlvars.append(f"    character(len=40) :: nv{k} = {lit}")
     src = ("module m\n  implicit none\n" + "\n".join(spec) + "\n"
            "  integer, parameter :: rel1 = merge(2, 3, 1 < 2)\n"
@@ -94,7 +96,7 @@ def evaluate(job):
     out = []
     with fordrun.tempdir("verif-c18-") as d:
         fordrun.write_files(d, {"src/m.f90": src})
-        ok, log, err = site.run_inproc(d, {"display": ["public", "private", "protected"], "search": False, "incl_src": False, "lower": bool(job.get("lower"))})
+        ok, log, err = site.run_inproc(d, {"display": ["public", "private", "protected"], "search": False, "incl_src": False, "lower": bool(job.get("lower")), "proc_internals": True})
         if not ok:
             return [{"k": None, "bad": f"FORD failed: {type(err).__name__}: {err}"}]
         project = site.CAPTURED["project"]
@@ -160,6 +162,16 @@ def evaluate(job):
             head = norm(soup.get_text(" "))
             if squash(f"name={lit}") not in squash(head):
                 out.append({"k": k, "bad": f"bind name: page {rel} does not show name={lit} literally"})
+            sq = subs.get(f"kq{k}")
+            kc = {v.name: v for v in sq.variables}.get("kc") if sq is not None else None
+            if kc is None:
+                out.append({"k": k, "bad": f"kind selector: local variable kc of kq{k} not reported"})
+            elif squash(f"selected_char_kind({lit})") != squash(kc.kind or ""):
+                out.append({"k": k, "bad": f"kind selector: source kind=selected_char_kind({lit}), FORD stores {kc.kind!r}"})
+            else:
+                qsoup = BeautifulSoup(open(os.path.join(d, "doc", sq.get_url()), "rb").read(), "html.parser")
+                if squash(f"selected_char_kind({lit})") not in squash(qsoup.get_text(" ")) or (qsoup.find_all("b") and "<b>" in content):
+                    out.append({"k": k, "tag": "kindpage", "bad": f"kind selector: page {sq.get_url()} does not show selected_char_kind({lit}) as inert text"})
             stray = [t.name for t in soup.find_all(True) if t.name in ("b",) and t.get_text() == ""]
             if soup.find_all("b") and "<b>" in content:
                 out.append({"k": k, "bad": f"bind name: literal {lit!r} was interpreted as mark-up on {rel}"})
@@ -307,6 +319,8 @@ def run(tier, seed, ck: Check):
                 if (p["tag"], p["bad"][:40]) in seen_fixed:
                     continue
                 seen_fixed.add((p["tag"], p["bad"][:40]))
+            if p.get("tag") == "kindpage" and c and ("<" in c[1] or "&amp;" in c[1]) and ck.known_finding("C18-F8"):
+                continue
             ck.violation("declaration-text", {"content": c[1] if c else None, "quote": c[2] if c else None}, detail=p["bad"])
     ck.coverage["traces_validated_against_impl"] = 0
     ck.sample({"literal_contents": cs[:20], "positions": ["initial value", "second entity", "array constructor", "component default", "bind name"]})
